@@ -20,6 +20,7 @@ import (
 	"path/filepath"
 	"sort"
 	"strings"
+	"time"
 	"unicode/utf8"
 
 	"github.com/rogpeppe/go-internal/txtar"
@@ -502,6 +503,9 @@ func main() {
 			os.Exit(2)
 		}
 		x := common.UnHex(rp.Violation.Input["x"])
+		if strings.HasPrefix(rp.Violation.Input["request"], "u8 ") {
+			rn.u8One(x)
+		}
 		one(x, "replay")
 		rn.flush(batch)
 		res.Write(f.Out)
@@ -551,6 +555,11 @@ func main() {
 	}
 	rn.flush(batch)
 	batch = batch[:0]
+
+	// 4b. rune level: the decoder, unicode.IsSpace, TrimSpace and utf8.Valid (utf8.go)
+	t0 := time.Now()
+	rn.utf8Phase()
+	res.Count(fmt.Sprintf("u8:phase-seconds<=%d", int(time.Since(t0).Seconds())+1))
 
 	// 5. well-formed archives: Parse(Format(a)) == a  (C03 only)
 	if prop == "C03" {
